@@ -299,7 +299,7 @@ def dense_ic(F, sizes, opt, diag2=False, cw=False):
         var = np.nan
         nz = np.array([])
         for _ in range(opt["maxit"]):
-            u = w * c
+            u = np.nan_to_num(w * c)  # bins already marked NaN (blocks done before) take no part
             m = u * (Af @ u)
             if diag2:
                 m = m + u * u * dg
@@ -368,13 +368,23 @@ def flat_ok(rs, R, N, var, scale, rescale):
     return bool(np.all((v >= lo * (1 - SLACK)) & (v <= hi * (1 + SLACK)))), [lo, hi]
 
 
+def conv_name(diag2, cw, nodata_kept=False):
+    parts = []
+    if diag2:
+        parts.append("ignore_diags=0:main-diagonal-counted-twice")
+    if cw:
+        parts.append("trans-only:chromosome-factor-missing-from-returned-weights")
+    if nodata_kept:
+        parts.append("no-remaining-data-bin-keeps-finite-weight")
+    return "+".join(parts)
+
+
 def evaluate(rec, clr, F, sizes, mspec, opt, store_path=None):
     n = len(F)
     chrom = chrom_ids(sizes)
     offs = offsets(sizes)
     case = dict(matrix=mspec, chroms=list(map(int, sizes)), opt=opt)
     mode = opt["mode"]
-    kind = f"{mode}" + (":ignore_diags=0" if opt["ig"] == 0 else "")
     out = rec.guarded("balance-runs", case, lambda: call_balance(clr, opt, n),
                       signature=f"balance-runs:exception:{mode}")
     if out is None:
@@ -385,15 +395,13 @@ def evaluate(rec, clr, F, sizes, mspec, opt, store_path=None):
     var = np.atleast_1d(np.asarray(stats["var"], dtype=float))
     scale = np.atleast_1d(np.asarray(stats["scale"], dtype=float))
     tol = opt["tol"]
-    rec.check("converged-flag==(var<tol)", np.array_equal(conv, var < tol) and bias.shape == (n,), case,
-              [conv.tolist(), lst(var)], "converged == (var < tol) elementwise", nontrivial=bool(conv.any()))
     blocks = list(zip(offs[:-1], offs[1:])) if mode == "cis" else [(0, n)]
-    if len(conv) != len(blocks):
-        rec.fail("converged-flag==(var<tol)", case, conv.tolist(), f"{len(blocks)} flags", "converged-flag:shape")
+    rec.check("converged-flag==(var<tol)", np.array_equal(conv, var < tol) and bias.shape == (n,) and len(conv) == len(blocks), case,
+              [conv.tolist(), lst(var)], "converged == (var < tol), one flag per balanced block", nontrivial=bool(conv.any()))
+    if len(conv) != len(blocks) or bias.shape != (n,):
         return
     x0 = make_x0(opt["x0"], n)
     Af, base = filtered(F, chrom, mode, opt["ig"])
-    exp, mask, border = expected_nan(Af, base, offs, opt, x0)
     got_nan = np.isnan(bias)
     inconv = np.zeros(n, dtype=bool)  # bins of blocks that report convergence: the property speaks about these
     for (lo, hi), cflag in zip(blocks, conv):
@@ -401,40 +409,57 @@ def evaluate(rec, clr, F, sizes, mspec, opt, store_path=None):
             inconv[lo:hi] = True
     if not inconv.any():
         return
+    # deviating conventions that are tried ONLY to name the class of a failure (never to pass a check)
+    alts = []
+    d2_possible = opt["ig"] == 0 and bool(np.diag(F).any())
+    if d2_possible:
+        alts.append((True, False))
+    if mode == "trans":
+        alts.append((False, True))
+        if d2_possible:
+            alts.append((True, True))
+    exp, mask, border = expected_nan(Af, base, offs, opt, x0)
     # ---- NaN set
     if not border:
         good = np.array_equal(got_nan[inconv], exp[inconv])
         sig = None
         if not good:
             sig = f"nan-set:{mode}:other"
-            for d2, nd, name in ((False, False, "no-remaining-data-bin-keeps-finite-weight"),
-                                 (True, True, "ignore_diags=0:main-diagonal-counted-twice"),
-                                 (True, False, "ignore_diags=0:main-diagonal-counted-twice+no-remaining-data-bin-keeps-finite-weight")):
-                if d2 and (opt["ig"] != 0 or not np.diag(F).any()):
+            for d2 in (False, True):
+                if d2 and not d2_possible:
                     continue
-                alt, _, _ = expected_nan(Af, base, offs, opt, x0, diag2=d2, nodata=nd)
-                if np.array_equal(got_nan[inconv], alt[inconv]):
-                    sig = f"nan-set:{name}"
+                e2, m2, _ = expected_nan(Af, base, offs, opt, x0, diag2=d2)
+                if np.array_equal(got_nan[inconv], e2[inconv]):
+                    sig = "nan-set:" + conv_name(d2, False)
+                    break
+                nd = e2 & ~m2  # bins left without data: the only ones allowed to differ in the "keeps finite weight" class
+                if np.array_equal((got_nan | nd)[inconv], e2[inconv]) and not (got_nan & ~e2 & inconv).any():
+                    sig = "nan-set:" + conv_name(d2, False, True)
                     break
         rec.check("nan-set==documented-exclusions", good, case,
                   dict(nan_bins=np.flatnonzero(got_nan & inconv).tolist(), weights=lst(bias)),
                   dict(nan_bins=np.flatnonzero(exp & inconv).tolist(), prefilter=np.flatnonzero(mask).tolist()),
                   nontrivial=bool((~exp & inconv).any()), signature=sig)
         R_all = ~exp & inconv
-        okpos = bool(np.all(np.isfinite(bias[R_all]) & (bias[R_all] > 0)))
         # a retained bin that came back NaN is already reported by the NaN-set contract: only judge non-NaN ones here
-        okpos2 = bool(np.all(got_nan[R_all] | (np.isfinite(bias[R_all]) & (bias[R_all] > 0))))
-        rec.check("retained-weights-finite-positive", okpos2, case, lst(bias), "finite and > 0 on retained bins",
+        okpos = bool(np.all(got_nan[R_all] | (np.isfinite(bias[R_all]) & (bias[R_all] > 0))))
+        rec.check("retained-weights-finite-positive", okpos, case, lst(bias), "finite and > 0 on retained bins",
                   nontrivial=bool(R_all.any()), signature=f"retained-weights-finite-positive:{mode}")
     # ---- flatness
     w = np.where(got_nan, 0.0, bias)
-    rs = w * (Af @ w)
+
+    def flat(k, lo, hi, d2, cw):
+        e2 = exp if not d2 else expected_nan(Af, base, offs, opt, x0, diag2=True)[0]
+        u = w * cweights(sizes) if cw else w
+        rs = u * (Af @ u) + (u * u * np.diag(Af) if d2 else 0)
+        R = np.flatnonzero(~e2 & (np.arange(n) >= lo) & (np.arange(n) < hi))
+        v, bound = flat_ok(rs, R, len(R), var[k], scale[k], opt["rescale"])
+        return v, bound, rs, R
+
     for k, ((lo, hi), cflag) in enumerate(zip(blocks, conv)):
         if not cflag:
             continue
-        R = np.flatnonzero(~exp & (np.arange(n) >= lo) & (np.arange(n) < hi))
-        N = len(R)
-        verdict, bound = flat_ok(rs, R, N, var[k], scale[k], opt["rescale"])
+        verdict, bound, rs, R = flat(k, lo, hi, False, False)
         bcase = case if mode != "cis" else dict(case, chrom_index=k)
         if verdict is None:
             rec.ok("flat-rowsums-within-bound", bcase, nontrivial=False)  # nothing retained / bound vacuous (scale <= delta)
@@ -442,16 +467,12 @@ def evaluate(rec, clr, F, sizes, mspec, opt, store_path=None):
         sig = None
         if not verdict:
             sig = f"flat-rowsums:{mode}:other"
-            if opt["ig"] == 0 and np.diag(F).any():
-                rs2 = rs + w * w * np.diag(Af)
-                if flat_ok(rs2, R, N, var[k], scale[k], opt["rescale"])[0]:
-                    sig = "flat-rowsums:ignore_diags=0:main-diagonal-counted-twice"
-            if mode == "trans":
-                u = w * cweights(sizes)
-                if flat_ok(u * (Af @ u), R, N, var[k], scale[k], opt["rescale"])[0]:
-                    sig = "flat-rowsums:trans-only:unequal-chromosomes:returned-weights-lack-chromosome-factor"
+            for d2, cw in alts:
+                if flat(k, lo, hi, d2, cw)[0]:
+                    sig = "flat-rowsums:" + conv_name(d2, cw)
+                    break
         rec.check("flat-rowsums-within-bound", verdict, bcase, dict(rowsums=lst(rs[R]), bins=R.tolist(),
-                  var=float(var[k]), scale=float(scale[k])), dict(bound=bound), nontrivial=N >= 2, signature=sig)
+                  var=float(var[k]), scale=float(scale[k])), dict(bound=bound), nontrivial=len(R) >= 2, signature=sig)
     # ---- coincidence with the dense procedure
     dw, dscale, dvar, dborder = dense_ic(F, sizes, opt)
     if not dborder:
@@ -464,10 +485,10 @@ def evaluate(rec, clr, F, sizes, mspec, opt, store_path=None):
         sig = None
         if not good:
             sig = f"dense-procedure:{mode}:other"
-            if opt["ig"] == 0 and np.diag(F).any() and same(dense_ic(F, sizes, opt, diag2=True, cw=True)):
-                sig = "dense-procedure:ignore_diags=0:main-diagonal-counted-twice"
-            elif mode == "trans" and same(dense_ic(F, sizes, opt, diag2=False, cw=True)):
-                sig = "dense-procedure:trans-only:unequal-chromosomes:returned-weights-lack-chromosome-factor"
+            for d2, cw in alts:
+                if same(dense_ic(F, sizes, opt, diag2=d2, cw=cw)):
+                    sig = "dense-procedure:" + conv_name(d2, cw)
+                    break
         rec.check("weights+stats==dense-procedure", good, case,
                   dict(weights=lst(bias), scale=lst(scale), var=lst(var)),
                   dict(weights=lst(dw), scale=lst(np.atleast_1d(dscale)), var=lst(np.atleast_1d(dvar))),
